@@ -189,4 +189,23 @@ theorem parseConfig_noPanic (data : Str) : NoPanic (parseConfig data) := by
   exact NoPanic.bind (parseRoutes_noPanic _) fun _ =>
     NoPanic.bind (iptLines_noPanic _ _) fun _ => noPanic_ok _
 
+/-- `MergeSpoc`: the search for the insert position of `[APPEND]` rules stops at index 0. -/
+theorem appendIndex_noPanic : ∀ revDrop : List Bool, NoPanic (appendIndex true revDrop)
+  | [] => by simp [appendIndex]; exact noPanic_ok _
+  | d :: rest => by
+    unfold appendIndex
+    split
+    · exact appendIndex_noPanic rest
+    · exact noPanic_ok _
+
+/-- … and the result is an index into the chain (`slices.Insert(rules, i, ru)` needs `i ≤ len`). -/
+theorem appendIndex_le : ∀ (revDrop : List Bool) (i : Nat), appendIndex true revDrop = .ok i → i ≤ revDrop.length
+  | [], i, h => by simp [appendIndex] at h; omega
+  | d :: rest, i, h => by
+    unfold appendIndex at h
+    split at h
+    · have := appendIndex_le rest i h
+      simp; omega
+    · cases h; simp
+
 end NA.C20.Linux
